@@ -24,7 +24,7 @@ DATA = None
 FIXED = datetime.datetime(2020, 1, 2, 3, 4, 5)
 HIDDEN = ('tricache', 'imgcache', 'newprivate')
 ACROSS_SAVES = ('scene_objects', 'node_objects', 'shapes', 'polygon_triangles', 'bound_triangleset', 'bound_item',
-                'partial_iter', 'triangleset', 'unbound_item')
+                'partial_iter', 'triangleset', 'unbound_item', 'prim_props')
 
 
 def data_dir():
@@ -289,6 +289,43 @@ def every_object(doc):
     return objs
 
 
+INNER_DIFFS = []
+
+
+def same_object(label, fn):
+    """a sub-query asked twice of the SAME object (the same BoundGeometry, bound primitive, polygon):
+    both answers must be equal; the first is the result"""
+    a = fn()
+    b = fn()
+    if a != b:
+        INNER_DIFFS.append(label)
+    return a
+
+
+def same_object_iter(label, obj, method):
+    """iterations of obj.method() on the same object: whole, counted first, two interleaved, one
+    abandoned part-way - each complete pass must list the same things"""
+    whole = same_object(label, lambda: [canon(x) for x in getattr(obj, method)()])
+    try:
+        n = len(obj)
+    except Exception:  # noqa
+        n = None
+    it1 = getattr(obj, method)()
+    first = next(it1, None)
+    inner = [canon(x) for x in getattr(obj, method)()]      # a second iteration while the first is open
+    rest = [canon(x) for x in it1]
+    if inner != whole or (([canon(first)] if first is not None else []) + rest) != whole:
+        INNER_DIFFS.append(label + ':interleaved')
+    it2 = getattr(obj, method)()
+    next(it2, None)
+    del it2                                                  # abandoned part-way
+    if [canon(x) for x in getattr(obj, method)()] != whole:
+        INNER_DIFFS.append(label + ':after-abandoned')
+    if n is not None and method == 'primitives' and type(obj).__name__ == 'BoundGeometry' and n != len(whole):
+        INNER_DIFFS.append(label + ':len')
+    return whole
+
+
 def run_query(doc, op):
     """returns a canonical result; exceptions are results too"""
     try:
@@ -307,12 +344,13 @@ def _run_query(doc, op):
         for o in sc.objects(op[1]):
             res.append(canon(o))
             if hasattr(o, 'primitives') and callable(o.primitives):
-                res.append([canon(p) for p in o.primitives()])
+                res.append(same_object_iter(type(o).__name__ + '.primitives', o, 'primitives'))
             g = getattr(o, 'geometry', None)
             if g is not None and hasattr(g, 'primitives') and callable(g.primitives):
-                res.append([canon(p) for p in g.primitives()])
+                res.append(same_object_iter(type(g).__name__ + '.primitives', g, 'primitives'))
                 for bsp in o.primitives():
-                    res.append([len(bsp), [canon(x) for x in list(bsp.shapes())[:3]]])
+                    res.append([len(bsp), same_object(type(bsp).__name__ + '.shapes',
+                                                      lambda: [canon(x) for x in list(bsp.shapes())[:3]])])
         return res
     if k == 'node_objects':
         sc = pick(doc.scenes, 0)
@@ -349,6 +387,8 @@ def _run_query(doc, op):
         if bp is None:
             return None
         if k == 'shapes':
+            same_object_iter(type(bp).__name__ + '.shapes', bp, 'shapes') if len(bp) <= 40 else None
+            same_object_iter(type(bg).__name__ + '.primitives', bg, 'primitives')
             sh = list(bp.shapes())
             return [len(bp), canon(bp), [canon(s) for s in sh[:op[3]]], [safe_repr(s) for s in sh[:op[3]]]]
         if k == 'bound_item':
@@ -359,14 +399,14 @@ def _run_query(doc, op):
             if not hasattr(bp, 'triangleset'):
                 return None
             ts = bp.triangleset()
-            return [canon(ts), len(ts), [canon(t) for t in list(ts.shapes())[:op[3]]]]
+            return [canon(ts), len(ts), same_object(type(ts).__name__ + '.shapes', lambda: [canon(t) for t in list(ts.shapes())[:op[3]]])]
         if not hasattr(bp, 'polygons'):
             return None
         polys = list(bp.polygons())
         if not polys:
             return []
         po = polys[op[3] % len(polys)]
-        return [canon(po), [canon(t) for t in po.triangles()]]
+        return [canon(po), same_object('Polygon.triangles', lambda: [canon(t) for t in po.triangles()])]
     if k in ('triangleset', 'unbound_item', 'input_list', 'prim_props'):
         g = pick(all_geoms(doc), op[1])
         if g is None:
@@ -606,6 +646,7 @@ def run_case(case):
                 fail('bound-arrays-owned', 'own', why, i)
             continue
         before = W.locations(A)
+        del INNER_DIFFS[:]
         r1 = run_query(A, op)
         mid = W.locations(A)
         r2 = run_query(A, op)
@@ -628,7 +669,12 @@ def run_case(case):
             cls = sorted(set(obs1.values()))
             fail('observable-changed', k,
                  'query %s changed observable locations %s' % (k, sorted(obs1)[:4]), i, sorted(obs1)[:12])
-        if not rep:
+        if INNER_DIFFS:
+            rep = False
+            steps[-1]['repeat_equal'] = False
+            fail('not-repeatable', k + ':same-object',
+                 'asked twice of the same object, %s answered differently' % sorted(set(INNER_DIFFS))[:3], i)
+        elif not rep:
             fail('not-repeatable', k, 'query %s returned a different result when repeated' % k, i)
     # at the end: every query asked on A answers on A what it answers on the never-queried twin
     a_snap = W.observable(W.locations(A))
